@@ -244,3 +244,20 @@ def initializer(marker, mode="ok"):
 
 def pickler_name():
     return _mod("loky.backend.reduction").get_loky_pickler_name()
+
+
+def exit_with(mode, code):
+    s = rt.RT.sched
+    proc = s.cur().proc
+    s.sleep(0.01)
+    fos = proc.overlay["os"]
+    if mode == "_exit":
+        fos._exit(code)
+    if mode == "exit":
+        raise SystemExit(code)
+    if mode == "signal":
+        fos.kill(proc.pid, code)
+        s.sleep(1e9)
+    if mode == "raise":
+        raise CustomError("child failed")
+    return None
